@@ -284,6 +284,29 @@ func consumerKey(group, topic string, partition int32) string {
 	return fmt.Sprintf("%s:%s:%d", group, topic, partition)
 }
 
+// maxTopicNameLength is Kafka's limit on topic name length.
+const maxTopicNameLength = 249
+
+// ValidTopicName reports whether name is a legal Kafka topic name: 1..249
+// characters from [a-zA-Z0-9._-], and not "." or "..". Topic names are embedded
+// verbatim in S3 object keys (joined and cleaned like paths) and in etcd keys, so
+// names with path separators, dot segments or ':' would alias another topic's
+// storage or metadata.
+func ValidTopicName(name string) bool {
+	if name == "" || name == "." || name == ".." || len(name) > maxTopicNameLength {
+		return false
+	}
+	for i := 0; i < len(name); i++ {
+		c := name[i]
+		switch {
+		case c >= 'a' && c <= 'z', c >= 'A' && c <= 'Z', c >= '0' && c <= '9', c == '.', c == '_', c == '-':
+		default:
+			return false
+		}
+	}
+	return true
+}
+
 // CreateTopic implements Store.CreateTopic.
 func (s *InMemoryStore) CreateTopic(ctx context.Context, spec TopicSpec) (*protocol.MetadataTopic, error) {
 	select {
@@ -291,7 +314,7 @@ func (s *InMemoryStore) CreateTopic(ctx context.Context, spec TopicSpec) (*proto
 		return nil, ctx.Err()
 	default:
 	}
-	if spec.Name == "" || spec.NumPartitions <= 0 {
+	if !ValidTopicName(spec.Name) || spec.NumPartitions <= 0 {
 		return nil, ErrInvalidTopic
 	}
 	if spec.ReplicationFactor <= 0 {
